@@ -97,6 +97,7 @@ _mod = _Mod()
 for _c in (Color, Perm, Level, Point, Empty, MyError, Keep, Wide, Alias, StrictF, StrE, TupE, Reserved):
     setattr(_mod, _c.__name__, _c)
 NS['c07'] = _mod
+NS['valgen'] = valgen          # generated namedtuple classes live there
 
 
 def rint(r, lo, hi):
@@ -495,7 +496,7 @@ def main(tier):
         run.coverage['distinct_nontrivial'] = nontriv
         run.coverage['type_histogram'] = kinds
         run.coverage['rule'] = (
-            'collections (OrderedDict, deque, defaultdict, Counter, ChainMap, mappingproxy, exceptions, partial) built from '
+            'collections (OrderedDict, deque, defaultdict, Counter, ChainMap, mappingproxy, exceptions, partial, UUID, SimpleNamespace, namedtuples) built from '
             'value terms, nested in each other and in containers, under width / indent / sort_dict_keys / max_seq_len / depth: '
             'text compared with the model (StdColl.std_print through the printer model), eval oracle without cuts; '
             'seeded instances of every standard-library type with a bundled printer: timedelta (zero, max, min, '
@@ -542,6 +543,8 @@ def coll_equal(a, b):
         return coll_equal(a.args, b.args)
     if isinstance(a, functools.partial):
         return a.func is b.func and coll_equal(a.args, b.args) and coll_equal(a.keywords, b.keywords)
+    if isinstance(a, types.SimpleNamespace):
+        return coll_equal(vars(a), vars(b))
     if isinstance(a, (list, tuple)):
         return len(a) == len(b) and all(coll_equal(x, y) for x, y in zip(a, b))
     if isinstance(a, (set, frozenset)):
